@@ -157,6 +157,27 @@ theorem range_edit_eq_phi (r : TSRange) (e : TSInputEdit)
     by_cases h3 : r.start_byte ≥ e.old_end_byte <;> by_cases h4 : r.start_byte > e.start_byte <;>
     simp [h1, h2, h3, h4, hne, w1, w2, n1] <;> (try omega)
 
+/-- `rangesJudge` never rejects what `ts_range_edit` computes (so a rejection is a deviation of the
+implementation from the proved mapping, not of the judge from the model). -/
+theorem rangesJudge_model (rs : List TSRange) (e : TSInputEdit) :
+    rangesJudge rs (rs.map (ts_range_edit · e)) e = none := by
+  unfold rangesJudge
+  simp only [List.length_map, ne_eq, not_true_eq_false, if_false]
+  suffices h : ∀ i, rangesJudge.go e rs (rs.map (ts_range_edit · e)) i = none from h 0
+  induction rs with
+  | nil => intro i; simp [rangesJudge.go]
+  | cons r rs ih =>
+    intro i
+    simp only [List.map_cons, rangesJudge.go]
+    rw [if_neg]
+    · exact ih (i + 1)
+    · rintro ⟨h1, h2, h3, h4, h5⟩
+      have := range_edit_eq_phi r e h1 h2 h3 h4
+      simp only [movedByte] at h5
+      rcases h5 with h5 | h5
+      · exact h5 this.1
+      · exact h5 this.2
+
 /-- A subtree that the edit reaches is marked: the root of `editTree t e` has `has_changes`
 unless the edit starts beyond the node's look-ahead end (or is a no-op at that end). -/
 theorem edit_marks_root (d : NodeData) (ks : List Tree) (e : Edit)
